@@ -1,5 +1,6 @@
-\* lead: the model of the code as it is ("ok") violates NoPanic within these bounds
-\* (a tail <<3, 3, 0>> reaches collapse; see fixes-proposed/C16-lone-node-panic.diff)
+\* negative control: the code before commit 85b29fa ("pre_fix_lone") violates NoPanic
+\* within these bounds (a tail <<3, 3, 0>> reaches collapse); with the repair
+\* (MC_PageTree_struct_d2_t.cfg, same bounds) everything holds
 SPECIFICATION Spec
 VIEW View
 CONSTANTS D = 2
@@ -11,6 +12,6 @@ CONSTANTS D = 2
   RVals = {"-"}
   SVals = {"-"}
   PendVals = {FALSE}
-  Variant = "ok"
+  Variant = "pre_fix_lone"
 INVARIANTS NoPanic TailInv DepthBound EffectiveSoFar RootDone PageNumbers NoLostCallback FutInv
 CHECK_DEADLOCK FALSE
